@@ -729,7 +729,11 @@ def ww_width(
     Returns:
         torch.Tensor
     """
-    return (cost * (3 / 2) * gamma.square() * spot / a).pow(1 / 3)
+    width = (cost * (3 / 2) * gamma.square() * spot / a).pow(1 / 3)
+    # Without transaction cost there is no band, also where gamma is infinite
+    # (at the money at zero volatility or at maturity): 0 * inf would give nan.
+    has_cost = torch.as_tensor(cost != 0, device=width.device)
+    return width.where(has_cost, torch.zeros_like(width))
 
 
 def svi_variance(
